@@ -1460,7 +1460,8 @@ class Parameter(_ParameterBase):
         event = Event(what=attribute, name=self.name, obj=None, cls=self.owner,
                       old=old, new=new, type=None)
         try:
-            for watcher in self.watchers[attribute]:
+            # Copy the watchers since a callback may (un)register watchers of this attribute
+            for watcher in list(self.watchers[attribute]):
                 self.owner.param._call_watcher(watcher, event)
         finally:
             if not self.owner.param._BATCH_WATCH:
